@@ -39,6 +39,13 @@ HistStep == \/ \E v \in Vs, a \in MCBin, r \in DOMAIN MCRpm, p \in MCOkPaths,
                      sr == IF bad = "srpm" THEN (IF MCRpm[r].src THEN "s1" ELSE "none") ELSE Valid(r)[2]
                  IN /\ Add("V1", a, r, f, p, "lower", c, sr, "canon")
                     /\ hist' = Append(hist, Rec("V1", a, r, f, p, "lower", c, sr, "canon"))
+\* editing histories: a narrow alphabet of valid adds interleaved with deleting a variant and with writing the manifest and
+\* reading it back into the same object
+EditStep == \/ \E v \in Vs, r \in {"b1", "s1", "b2"} :
+                 /\ Add(v, "bin1", r, "canon", "rel1", "mixed", Valid(r)[1], Valid(r)[2], "canon")
+                 /\ hist' = Append(hist, Rec(v, "bin1", r, "canon", "rel1", "mixed", Valid(r)[1], Valid(r)[2], "canon"))
+            \/ \E v \in Vs : Del(v) /\ hist' = Append(hist, [op |-> "del", v |-> v, out |-> out'])
+            \/ Reload /\ hist' = Append(hist, [op |-> "reload", out |-> out'])
 \* 0.3 documents: subsets of candidate entries
 Ent(v, a, s, r, t) == <<v, a, s, r, t>>
 Cand == {Ent("V1", "bin1", "s1", "b1", "package"), Ent("V1", "bin1", "s1", "d1", "debug"), Ent("V1", "bin2", "s1", "b1", "package"),
@@ -57,6 +64,7 @@ GInit == Init /\ hist = <<>>
 GNext == /\ Len(hist) < D
          /\ CASE Mode = "matrix" -> Matrix
               [] Mode = "hist"   -> HistStep
+              [] Mode = "edit"   -> EditStep
               [] Mode = "load03" -> (IF hist = <<>> THEN LoadStep ELSE HistStep)
 Flat == {[v |-> k[1], a |-> k[2], srpm |-> k[3], rpm |-> k[4], path |-> rpms[k].path, sigkey |-> rpms[k].sigkey,
           category |-> rpms[k].category] : k \in DOMAIN rpms}
